@@ -13,7 +13,7 @@ RULE = ("real readers (4 formats) on spec-written files whose video and telemetr
         "(top bits set), walking single bits, all-ones; KLM channel-select 0..3 with other bit-field bits random; "
         "a case = one scan line; all lines are checked by the Python oracle (independent bit extraction from the raw "
         "bytes), a subset is evaluated by the Coq model; non-trivial = distinct (format, line word pattern) with at "
-        "least 3 distinct sample values")
+        "least 3 distinct sample values; plus one full-size pass per family (1300 / 4400 lines) compared as a whole array")
 ASSUME = ["numpy >>, &, strided assignment, reshape and mean as modelled", "float64 holds 10-bit counts exactly"]
 TB = ["coqc 8.16.1 kernel", "harness/l1b.py spec writer + correspondence (in-Coq comparison: check_klm_counts, "
       "check_pod_counts, check_klm_tele, check_pod_tele)"]
@@ -69,6 +69,8 @@ def run(res, tier, seed):
             line["words"] = l1b.words_bytes(words)
             if fam == "klm":
                 line["switch"] = i % 4 if i < 8 else rng.randrange(4)
+                if i == n - 1:
+                    line["switch"] = 0     # first and last line select 3b, lines in between select anything: routing is per line
                 line["bitfield_hi"] = rng.getrandbits(16)
                 line["prt"] = [rng.randrange(65536) for _ in range(3)]
                 line["ict"] = [rng.randrange(65536) for _ in range(30)]
@@ -163,6 +165,46 @@ def run(res, tier, seed):
                                                                 common.zlist(line["space"]), gq), (fmt, i)))
             else:
                 coq["pod_tele"].append(("(%s, %s)" % (common.zlist(tw), gq), (fmt, i)))
+    # ---------- long passes (whole-array oracle in numpy from the raw words): every line of a full-size pass ----------
+    for fmt, sc in (("gac_klm", "noaa19"), ("gac_pod", "noaa12")):
+        info = l1b.FMT[fmt]
+        fam, W, NW = info["family"], info["width"], info["words"]
+        n = 1300 if tier == "quick" else 4400
+        rs = np.random.RandomState(rng.randrange(2 ** 31))
+        words = rs.randint(0, 2 ** 32, size=(n, NW), dtype=np.uint64).astype(np.uint32)
+        sws = rs.randint(0, 2, size=n)
+        sws[0] = sws[-1] = 1               # 3a at both ends, both settings in between
+        start = datetime.datetime(2004 if fam == "klm" else 1993, 2, 3, 4, 5, 6)
+        lines = l1b.default_lines(fmt, n, start, counts=lambda i: words[i].astype(">u4").tobytes(), switch=[int(x) for x in sws])
+        ictw = rs.randint(0, 1024, size=(n, 30))
+        spw = rs.randint(0, 1024, size=(n, 50))
+        for i, ln in enumerate(lines):
+            if fam == "klm":
+                ln["ict"], ln["space"] = [int(x) for x in ictw[i]], [int(x) for x in spw[i]]
+        r = impl.open_reader(fmt, l1b.build_file(fmt, sc, start, lines), adjust_clock_drift=False)
+        got = r.get_counts()
+        k = np.arange(5 * W)
+        smp = ((words[:, k // 3].astype(np.int64) >> (20 - 10 * (k % 3))) & 1023).reshape(n, W, 5)
+        if fam == "klm":
+            exp = np.zeros((n, W, 6), dtype=np.int64)
+            exp[:, :, 0], exp[:, :, 1], exp[:, :, 4], exp[:, :, 5] = smp[:, :, 0], smp[:, :, 1], smp[:, :, 3], smp[:, :, 4]
+            exp[:, :, 2] = np.where(sws[:, None] == 1, smp[:, :, 2], 0)
+            exp[:, :, 3] = np.where(sws[:, None] == 0, smp[:, :, 2], 0)
+        else:
+            exp = smp
+        ctx = dict(fmt=fmt, spacecraft=sc, lines=n, seed=seed)
+        if got.shape != exp.shape or not np.array_equal(got, exp):
+            badl = sorted(set(np.argwhere(got != exp)[:, 0].tolist())) if got.shape == exp.shape else []
+            res.violations.append(("count is not the format's 10-bit sample 5p+c (long pass)",
+                                   dict(ctx, lines_affected=len(badl), first_lines=badl[:5], shape=list(got.shape))))
+        if fam == "klm":
+            prt, ict, space = r.get_telemetry()
+            e_ict = ictw.reshape(n, 10, 3).mean(axis=1)
+            e_sp = spw.reshape(n, 10, 5)[:, :, 2:].mean(axis=1)
+            if not (np.allclose(ict, e_ict, rtol=0, atol=1e-9) and np.allclose(space, e_sp, rtol=0, atol=1e-9)):
+                res.violations.append(("telemetry count is not the mean of the designated words (long pass)", ctx))
+        res.add_case(("long", fmt, n), True, dict(ctx, kind="long pass, whole-array comparison"))
+        res.traces += 1
     for key, lst in coq.items():
         if not lst:
             continue
